@@ -56,6 +56,7 @@ type Driver struct {
 	up      map[string]bool
 	wr      *wcall
 	wt      *wcall
+	stash   []*call // source calls that arrived from a goroutine other than the one the driver was waiting for
 	ticks   int
 	start   time.Time
 	// Outcome
@@ -64,6 +65,7 @@ type Driver struct {
 	At           int
 	Inconclusive string
 	Tolerated    string
+	gate         *gate
 	PubIdx       atomic.Int64 // number of publications completed (for background readers)
 	Snapshots    [][]int      // model vis after each publication, index = PubIdx value
 }
@@ -110,15 +112,29 @@ func (d *Driver) fail(key, format string, a ...interface{}) bool {
 
 // waitArrival waits for the next source call of the writer w, or for w to return early.
 func (d *Driver) waitArrival(w *wcall) (*call, *result) {
+	for i, c := range d.stash {
+		if c.gid == w.gid {
+			d.stash = append(d.stash[:i], d.stash[i+1:]...)
+			return c, nil
+		}
+	}
 	t := time.NewTimer(d.cfg.Watchdog)
 	defer t.Stop()
-	select {
-	case c := <-d.sim.arrive:
-		return c, nil
-	case r := <-w.done:
-		return nil, &r
-	case <-t.C:
-		return nil, nil
+	for {
+		select {
+		case c := <-d.sim.arrive:
+			if c.gid != w.gid {
+				// e.g. the call that was parked on the writer lock got the lock and reached its first source:
+				// it stays parked in the gate until the model takes its step.
+				d.stash = append(d.stash, c)
+				continue
+			}
+			return c, nil
+		case r := <-w.done:
+			return nil, &r
+		case <-t.C:
+			return nil, nil
+		}
 	}
 }
 
@@ -130,6 +146,10 @@ func (d *Driver) waitDone(w *wcall) (result, bool) {
 		case r := <-w.done:
 			return r, true
 		case c := <-d.sim.arrive:
+			if c.gid != w.gid {
+				d.stash = append(d.stash, c)
+				continue
+			}
 			// An unexpected extra source call: answer "unavailable" so that nothing hangs, and report.
 			c.reply <- reply{err: errDown}
 			d.Div, d.Detail = "unexpected-source-call", fmt.Sprintf("src %d all=%v while waiting for the %s call to return", c.src, c.all, w.kind)
@@ -260,7 +280,6 @@ func (d *Driver) miss(w *wcall, st *Step, stored bool) bool {
 // Apply executes one model step on the real cache and compares the observations.
 func (d *Driver) Apply(idx int, st *Step) bool {
 	d.At = idx
-	a0, f0 := d.counters()
 	switch st.A {
 	case "EnvSet":
 		d.content[st.S][st.P] = st.V
@@ -329,26 +348,34 @@ func (d *Driver) Apply(idx int, st *Step) bool {
 	case "GetHit":
 		w := d.startGet(st.P)
 		var r result
-		select {
-		case r = <-w.done:
-		case c := <-d.sim.arrive:
-			c.reply <- reply{err: errDown}
-			<-w.done
-			w.cancel()
-			if st.Str == 0 {
-				d.Tolerated = "refetch-after-expiry-marker"
-				return false
+		t := time.NewTimer(d.cfg.Watchdog)
+	hit:
+		for {
+			select {
+			case r = <-w.done:
+				break hit
+			case c := <-d.sim.arrive:
+				if c.gid != w.gid {
+					d.stash = append(d.stash, c)
+					continue
+				}
+				c.reply <- reply{err: errDown}
+				<-w.done
+				w.cancel()
+				t.Stop()
+				if st.Str == 0 {
+					d.Tolerated = "refetch-after-expiry-marker"
+					return false
+				}
+				return d.fail("negative-refetch", "Get(%s) queried source %d although the model holds a cache entry (value %d)", st.P, c.src, st.Ret)
+			case <-t.C:
+				return d.fail("blocked-read", "Get(%s) of a cached provider did not return while writer=%v", st.P, d.wr != nil)
 			}
-			return d.fail("negative-refetch", "Get(%s) queried source %d although the model holds a cache entry (value %d)", st.P, c.src, st.Ret)
-		case <-time.After(d.cfg.Watchdog):
-			return d.fail("blocked-read", "Get(%s) of a cached provider did not return while writer=%v", st.P, d.wr != nil)
 		}
+		t.Stop()
 		w.cancel()
 		if r.err != nil || versionOf(r.pi) != st.Ret {
 			return d.fail("get-mismatch", "Get(%s) returned version %d err=%v, model %d", st.P, versionOf(r.pi), r.err, st.Ret)
-		}
-		if a1, f1 := d.counters(); f1 != f0 || (a1 != a0 && d.wr == nil) {
-			return d.fail("negative-refetch", "Get(%s) hit caused source calls", st.P)
 		}
 	case "MissBegin":
 		if !d.miss(d.startGet(st.P), st, st.V == 1) {
@@ -467,6 +494,10 @@ func (d *Driver) Drift() time.Duration {
 
 // Abort releases everything still parked so that no goroutine leaks into the next behaviour.
 func (d *Driver) Abort() {
+	for _, c := range d.stash {
+		c.reply <- reply{err: context.Canceled}
+	}
+	d.stash = nil
 	for _, w := range []*wcall{d.wr, d.wt} {
 		if w == nil {
 			continue
